@@ -26,6 +26,7 @@ type SpecEnv struct {
 	con   *Contract // contract whose clauses are being evaluated (for `define`d functions)
 	app   int       // id of its application (0: the function's own contract)
 	entryVars map[string]SV // loop environments: old(x) of a (reassigned) parameter is its value at function entry
+	loopAlloc T // loop environments: the allocation counter when the loop was first entered (loopfresh)
 }
 
 type qhyp struct {
@@ -820,6 +821,18 @@ func (vc *VC) evalCall(e *Expr, env *SpecEnv) SV {
 			t = app("s_ref", x.t)
 		}
 		return mathBool(app(">=", t, env.old.alloc))
+	case "loopfresh":
+		// loopfresh(x): x was allocated after the enclosing loop was first entered (loop invariants only)
+		x := ev(0)
+		if env.loopAlloc == "" {
+			vc.errorf("spec: loopfresh(x) outside a loop invariant")
+			return mathBool(tTrue)
+		}
+		t := x.t
+		if x.sortIn(vc) == "Slice" {
+			t = app("s_ref", x.t)
+		}
+		return mathBool(app(">=", t, env.loopAlloc))
 	case "isnil":
 		return mathBool(vc.nilOf(ev(0)))
 	case "ifacenotnil":
